@@ -32,6 +32,7 @@ SubKinds == [
                                                         \* an inner length that runs past the frame: reset
   Truncated |-> <<"body", "len", "nobody">>,            \* EOF inside the body / inside the length / right after the length
   Rpc       |-> <<"rpc">>,                              \* a well-formed RPC whose fields are given by classes
+  Malformed |-> <<"field">>,                           \* a frame built around ONE hand-made protobuf field (classes: MalFields)
   Dup       |-> <<"streams">>,                         \* no bytes: the peer opens 8 further inbound streams, one after the other,
                                                         \* without closing the previous ones (the node keeps the last)
   Tick      |-> <<"hb">> ]                              \* no frame: one heartbeat of the node passes (end of a scenario)
@@ -57,6 +58,11 @@ Fields == [
   msgTopic   |-> <<"absent", "empty", "known", "unknown", "huge">>,
   from       |-> <<"absent", "empty", "self", "own", "other", "garbage">>,
   seqno      |-> <<"0", "1", "3", "7", "8", "9">>,       \* length in bytes
+  seqrel     |-> <<"ascending", "descending", "equal", "sameprefix", "prevprefix">>,
+                 \* numeric relation of the sequence numbers of the messages of ONE RPC (they are validated concurrently):
+                 \* equal = identical bytes; sameprefix = message 0 as its class says, the others 9 bytes = its first 8
+                 \* bytes + a distinct tail (distinct message ids, ONE numeric value); prevprefix = the same, with the
+                 \* prefix of the previous RPC of the scenario (a replay that arrives after the first validation ended)
   sig        |-> <<"absent", "signed", "bad", "empty">>,
   key        |-> <<"absent", "garbage", "mismatch", "match">>,
   data       |-> <<"empty", "small", "big">>,
@@ -150,23 +156,53 @@ Caps == [ MaxIHaveLength |-> 3, MaxIHaveMessages |-> 2, MaxIDontWantLength |-> 2
           ValidateQueueSmall |-> 2, ValidateWorkersSmall |-> 1, OutboundQueueSmall |-> 2, SlowSubscriberBuffer |-> 2,
           OverMargin |-> 16 ]
 
+(* Malformed frames: one hand-made field inside one of the 13 message types of the wire format.  These are the
+   integer-overflow classes of every length the generated decoder adds to an index.  The whole product is
+   replayed (it is small), not a pair cover.
+     where: the message type whose Unmarshal meets the field (reached through its path from the RPC)
+     field: unknown = field number 15 (unknown everywhere); known = a known length-delimited field of that type
+     wt:    wire type (group = start+end pair, sgroup / egroup = start / end alone, illegal = 7)
+     len:   for wt = len, the length varint: 0 / fits (3 bytes follow) / plus1 (one more than follows) / 2^31-1 /
+            2^31 / 2^32 / ovfl = end offset exactly 2^63-1 / ovfl1 = end offset 2^63 (wraps int) / 2^63 / 2^64-1 /
+            long = a varint of 11 bytes
+     pre:   none = the field is the first byte of its message, known = a valid known field precedes it (offset > 0) *)
+MalFields == [
+  where |-> <<"rpc", "subopts", "message", "control", "ihave", "iwant", "graft", "prune", "idontwant",
+              "extensions", "peerinfo", "partial", "testext">>,
+  field |-> <<"unknown", "known">>,
+  wt    |-> <<"len", "varint", "fixed64", "fixed32", "group", "sgroup", "egroup", "illegal">>,
+  len   |-> <<"0", "fits", "plus1", "i31m", "i31", "u32", "ovfl", "ovfl1", "i63", "u64", "long">>,
+  pre   |-> <<"none", "known">> ]
+MalNoKnown == {"extensions", "testext"}     \* message types without a length-delimited field of their own
+BlankM == [k \in DOMAIN MalFields |-> MalFields[k][1]]
+IsMal(m) == /\ DOMAIN m = DOMAIN MalFields /\ \A k \in DOMAIN MalFields : m[k] \in Range(MalFields[k])
+            /\ m.where \in MalNoKnown => m.field = "unknown"
+            /\ m.wt # "len" => m.len = BlankM.len
+\* does the frame decode?  (a known field accepts only its own wire type)
+Decodes(m) == \/ m.wt = "len" /\ m.len \in {"0", "fits"}
+              \/ m.field = "unknown" /\ m.wt \in {"varint", "fixed64", "fixed32", "group"}
+
 Table == [ subkinds |-> SubKinds, fields |-> Fields, deep |-> DeepOverride,
-           cfg |-> Cfg, gossipOnly |-> GossipOnly, cfgDeep |-> CfgDeepOverride, forbidden |-> Forbidden, caps |-> Caps ]
+           cfg |-> Cfg, gossipOnly |-> GossipOnly, cfgDeep |-> CfgDeepOverride, forbidden |-> Forbidden, caps |-> Caps,
+           mal |-> MalFields, malNoKnown |-> MalNoKnown ]
 
 -----------------------------------------------------------------------------
 Blank == [k \in DOMAIN Fields |-> Fields[k][1]]
 BlankCfg == [k \in DOMAIN Cfg |-> Cfg[k][1]]
 
 \* a frame: kind, sub-kind and (for Rpc) the class of every field
-Frame(kind, sub, ov) == [kind |-> kind, sub |-> sub,
+Frame(kind, sub, ov) == [kind |-> kind, sub |-> sub, m |-> BlankM,
                          f |-> [k \in DOMAIN Fields |-> IF k \in DOMAIN ov THEN ov[k] ELSE Blank[k]]]
-Raw(kind, sub) == [kind |-> kind, sub |-> sub, f |-> Blank]
+Raw(kind, sub) == [kind |-> kind, sub |-> sub, f |-> Blank, m |-> BlankM]
+Mal(ov) == [kind |-> "Malformed", sub |-> "field", f |-> Blank,
+            m |-> [k \in DOMAIN MalFields |-> IF k \in DOMAIN ov THEN ov[k] ELSE BlankM[k]]]
 
 IsFrame(fr) == /\ fr.kind \in DOMAIN SubKinds
                /\ fr.sub \in Range(SubKinds[fr.kind])
                /\ DOMAIN fr.f = DOMAIN Fields
                /\ \A k \in DOMAIN Fields : fr.f[k] \in Range(Fields[k])
                /\ fr.kind # "Rpc" => fr.f = Blank
+               /\ IsMal(fr.m) /\ (fr.kind # "Malformed" => fr.m = BlankM)
 IsCfg(c) == /\ DOMAIN c = DOMAIN Cfg
             /\ \A k \in DOMAIN Cfg : c[k] \in Range(Cfg[k])
             /\ c.router # "gossipsub" => \A k \in GossipOnly : c[k] = BlankCfg[k]
@@ -225,6 +261,14 @@ AnchorFrames == [
   msgqp     |-> Frame("Rpc", "rpc", [ValidMsg EXCEPT !.nmsg = "qp"]),
   msgabsorb |-> Frame("Rpc", "rpc", [ValidMsg EXCEPT !.nmsg = "absorb"]),
   msgover   |-> Frame("Rpc", "rpc", [ValidMsg EXCEPT !.nmsg = "over"]),
+  \* distinct messages of one author with ONE numeric sequence number, in one RPC (validated concurrently)
+  msgpair   |-> Frame("Rpc", "rpc", [ValidMsg EXCEPT !.nmsg = "few"] @@ [seqrel |-> "sameprefix"]),
+  msgpairs  |-> Frame("Rpc", "rpc", [ValidMsg EXCEPT !.nmsg = "many"] @@ [seqrel |-> "sameprefix"]),
+  msgdesc   |-> Frame("Rpc", "rpc", [ValidMsg EXCEPT !.nmsg = "many"] @@ [seqrel |-> "descending"]),
+  msgequal  |-> Frame("Rpc", "rpc", [ValidMsg EXCEPT !.nmsg = "few"] @@ [seqrel |-> "equal"]),
+  msgprev   |-> Frame("Rpc", "rpc", [ValidMsg EXCEPT !.nmsg = "few"] @@ [seqrel |-> "prevprefix"]),
+  ovfltop   |-> Mal([where |-> "rpc", field |-> "unknown", wt |-> "len", len |-> "ovfl1", pre |-> "known"]),
+  ovflmsg   |-> Mal([where |-> "message", field |-> "unknown", wt |-> "len", len |-> "ovfl1", pre |-> "known"]),
   dup       |-> Raw("Dup", "streams"),
   sublim    |-> Frame("Rpc", "rpc", [nsub |-> "few", subTopic |-> "known", subFlag |-> "true"]),
   sublimp   |-> Frame("Rpc", "rpc", [nsub |-> "limp", subTopic |-> "known", subFlag |-> "true"]) ]
@@ -279,6 +323,14 @@ Anchors == <<
   \* the hostile peer's own outbound queue (every GRAFT inside the backoff makes the node answer with a PRUNE)
   [name |-> "outq-overfull",          cfg |-> [router |-> "gossipsub", hslow |-> "on"], seq |-> <<"prune", "graft", "graft", "graft", "graft">>],
   [name |-> "outq-overfull-floodsub", cfg |-> [router |-> "floodsub", hslow |-> "on"], seq |-> <<"sub", "msg", "msg">>],
+  \* the seqno validator under concurrent validation of one numeric value / descending values; replays afterwards
+  [name |-> "seqno-sameprefix",       cfg |-> [router |-> "gossipsub", validator |-> "seqno"], seq |-> <<"msgpair", "msg">>],
+  [name |-> "seqno-sameprefix-many",  cfg |-> [router |-> "gossipsub", validator |-> "seqno", valq |-> "small"], seq |-> <<"msgpairs", "msgpair">>],
+  [name |-> "seqno-sameprefix-inline", cfg |-> [router |-> "gossipsub", validator |-> "inline"], seq |-> <<"msgpairs", "msgpairs">>],
+  [name |-> "seqno-descending",       cfg |-> [router |-> "gossipsub", validator |-> "seqno"], seq |-> <<"msgdesc", "msgequal">>],
+  [name |-> "seqno-replay-later",     cfg |-> [router |-> "gossipsub", validator |-> "seqno"], seq |-> <<"msg", "msgprev", "msgprev">>],
+  [name |-> "seqno-sameprefix-flood", cfg |-> [router |-> "floodsub", validator |-> "seqno"], seq |-> <<"msgpair", "msgpairs">>],
+  [name |-> "unknown-field-overflow", cfg |-> [router |-> "gossipsub"], seq |-> <<"ovfltop", "ovflmsg", "msg">>],
   [name |-> "dup-streams",            cfg |-> [router |-> "gossipsub"], seq |-> <<"dup", "sub", "dup", "msg">>],
   [name |-> "sub-limit",              cfg |-> [router |-> "gossipsub", filter |-> "limit"], seq |-> <<"sublim", "sublimp">>],
   [name |-> "floodsub",         cfg |-> [router |-> "floodsub"], seq |-> <<"msg", "garbage", "msg">>],
@@ -299,6 +351,7 @@ wvars == <<stream, alive, cfg>>
 \* what the node does to the stream a frame arrives on
 Effect(fr) == CASE fr.kind \in {"TooLong", "Garbage"} -> "reset"
                 [] fr.kind = "Truncated" -> IF fr.sub = "nobody" THEN "eof" ELSE "reset"
+                [] fr.kind = "Malformed" -> IF Decodes(fr.m) THEN "open" ELSE "reset"
                 [] OTHER -> "open"
 
 \* conformance (drift only): the stream states the code may leave behind.  EOF inside the length prefix
@@ -306,7 +359,7 @@ Effect(fr) == CASE fr.kind \in {"TooLong", "Garbage"} -> "reset"
 Conform(fr) == IF fr.kind = "Truncated" /\ fr.sub = "len" THEN {"reset", "eof"} ELSE {Effect(fr)}
 
 \* number of RPCs the frame hands to the event loop
-Recv(fr) == IF fr.kind = "Rpc" THEN 1 ELSE 0
+Recv(fr) == IF fr.kind = "Rpc" \/ (fr.kind = "Malformed" /\ Decodes(fr.m)) THEN 1 ELSE 0
 
 \* D2 (deviation of the code as found): the message reaches BasicSeqnoValidator with a 1..7 byte seqno
 ReachesSeqnoValidator(c, fr) ==
@@ -339,7 +392,8 @@ P_C12_Alive == alive
 \* reset iff the frame is too long or does not decode (a truncated frame ends it)
 IsolationStep(p, fr) ==
     /\ \A q \in Peers \ {p} : stream'[q] = stream[q]
-    /\ (stream'[p] = "reset") <=> (fr.kind \in {"TooLong", "Garbage"} \/ (fr.kind = "Truncated" /\ fr.sub # "nobody"))
+    /\ (stream'[p] = "reset") <=> (fr.kind \in {"TooLong", "Garbage"} \/ (fr.kind = "Truncated" /\ fr.sub # "nobody")
+                                     \/ (fr.kind = "Malformed" /\ ~Decodes(fr.m)))
     /\ fr.kind \in {"Empty", "Rpc", "Tick", "Dup"} => stream'[p] = "open"
     /\ fr.kind = "Truncated" => stream'[p] # "open"
 
@@ -349,8 +403,10 @@ O_Alive(obs) == obs.alive
 O_Isolation(fr, obs, prevHOut, prevGOut) ==
     /\ fr.kind \in {"TooLong", "Garbage"} => obs.stream = "reset"
     /\ fr.kind \in {"Empty", "Rpc", "Tick", "Dup"} => obs.stream = "open"
+    /\ fr.kind = "Malformed" => obs.stream = (IF Decodes(fr.m) THEN "open" ELSE "reset")
     /\ fr.kind = "Truncated" => obs.stream \in {"reset", "eof"}
     /\ obs.gstream = "open"                       \* the honest peer's stream is untouched
     /\ obs.hOut = prevHOut /\ obs.gOut = prevGOut \* so are the node's own outbound streams
-O_Liveness(obs) == obs.eval /\ (obs.probe \/ obs.throttled)
+\* the event loop answers, a local Publish returns (and reaches the node's own subscription), an honest peer's later message is delivered
+O_Liveness(obs) == obs.eval /\ obs.pub /\ (obs.probe \/ obs.throttled)
 =============================================================================
